@@ -1,4 +1,5 @@
 import StirVerif.C11.Model
+import StirVerif.C11.NDim
 /-! Line-protocol driver for C11 (see harness/c11_arrays.cxx for the implementation side). -/
 namespace Driver.C11
 open StirVerif.C11
@@ -59,11 +60,47 @@ def parseOp (toks : List String) : Option Op :=
 
 def initRegs : Regs := [Vec.empty, Vec.empty, Vec.empty]
 
+/-- nested array from the token stream `N <lo> <k> <child>*k` / `L <lo> <k> <value>*k` -/
+partial def parseTree : List String → Option (RArr × List String)
+  | "L" :: lo :: n :: rest => do
+    let lo ← lo.toInt?
+    let n ← n.toNat?
+    let vals := rest.take n
+    if vals.length ≠ n then none
+    let xs ← vals.mapM String.toInt?
+    pure (.leaf lo xs, rest.drop n)
+  | "N" :: lo :: n :: rest => do
+    let lo ← lo.toInt?
+    let n ← n.toNat?
+    let rec rows (k : Nat) (toks : List String) (acc : List RArr) : Option (List RArr × List String) :=
+      match k with
+      | 0 => some (acc.reverse, toks)
+      | k + 1 => do
+        let (r, toks') ← parseTree toks
+        rows k toks' (r :: acc)
+    let (rs, rest') ← rows n rest []
+    pure (.node lo rs, rest')
+  | _ => none
+
+/-- `nd <tree> @ <c1> … <cn>`: the checked access `at(coordinate)` on the serialised array, and its `size_all()` -/
+def ndLine (toks : List String) : String :=
+  match parseTree toks with
+  | some (a, "@" :: cs) =>
+    match cs.mapM String.toInt? with
+    | some cs =>
+      let r := match a.at? cs with
+        | some x => s!"val:{x}"
+        | none => "err"
+      s!"{r} size={a.sizeAll}"
+    | none => "bad-op"
+  | _ => "bad-op"
+
 /-- state: `none` after a memory-unsafe step (everything until the next `reset` answers UNSAFE) -/
 def stepLine (st : Option Regs) (line : String) : Option Regs × String :=
   let toks := (line.trimAscii.toString.splitOn " ").filter (· ≠ "")
   match toks with
   | ["reset"] => (some initRegs, "reset")
+  | "nd" :: rest => (st, ndLine rest)
   | _ =>
     match st with
     | none => (none, "UNSAFE")
